@@ -1,0 +1,17 @@
+"""Verification hooks (add-only, disabled unless MASHUMARO_VERIF=1).
+
+Records, for an external verification harness, which objects the code builder binds
+under which global names and every piece of generated source it executes.  With the
+guard off nothing is recorded and no call site does any work.
+"""
+
+import os
+from typing import Any
+
+ENABLED = os.environ.get("MASHUMARO_VERIF") == "1"
+
+events: list[tuple[str, dict[str, Any]]] = []
+
+
+def emit(kind: str, **data: Any) -> None:
+    events.append((kind, data))
